@@ -165,7 +165,7 @@ PROPS["C11"] = {
     "filters": ["k11_"],
     "functions": ["<Value as PartialEq>::eq", "<Value as Ord>::cmp", "<Value as PartialOrd>::partial_cmp", "<Value as Hash>::hash", "RawByteIter::next", "<Final as PartialEq>::eq"],
     "bounds": "pairs of values of the same type built from independent 4-byte symbolic buffers at independent bit offsets 0..7, and pairs cut out of one shared buffer at two offsets (siblings); types: 2+2^8, (1+2)x2^4, 2^8, 2^4+2 (clean histories) and 2+2^8, 2 (dirty histories: arbitrary sum padding and arbitrary bits after the value)",
-    "outside": "histories that need the compact decoder or prune; transitivity over triples; other type shapes",
+    "outside": "histories that need the compact decoder or prune; transitivity over triples in the quick tier (thorough: k11_trans_* on two shapes); other type shapes",
     "assumptions": ["values are built from raw parts through the verif-hooks", "Tmr stubs as in C10"],
     "harnesses": [
         H("k11_eq_clean_sum_b_y", timeout=1800, mem_gb=16, unwind=8, unwindset=valk_rules()),
@@ -174,6 +174,8 @@ PROPS["C11"] = {
         H("k11_eq_clean_sum_n_b", tiers=("thorough",), timeout=1800, mem_gb=16, unwind=8, unwindset=valk_rules()),
         H("k11_eq_shared_byte", timeout=1800, mem_gb=16, unwind=8, unwindset=valk_rules()),
         H("k11_eq_shared_u16", tiers=("thorough",), timeout=1800, mem_gb=16, unwind=8, unwindset=valk_rules()),
+        H("k11_trans_clean_sum_b_y", tiers=("thorough",), timeout=2400, mem_gb=20, unwind=8, unwindset=valk_rules()),
+        H("k11_trans_clean_prod_sum", tiers=("thorough",), timeout=2400, mem_gb=20, unwind=8, unwindset=valk_rules()),
         H("k11_eq_dirty_sum_b_y", timeout=1800, mem_gb=16, unwind=8, unwindset=valk_rules()),
         H("k11_eq_dirty_bit", timeout=1800, mem_gb=16, unwind=8, unwindset=valk_rules()),
     ],
